@@ -119,7 +119,7 @@ pub fn execute_case(case: &Value, scratch: &str) -> Outcome {
 pub fn warm_up(process_seed: u64) -> Result<(), String> {
     let h = std::thread::spawn(move || {
         crate::shim::set_thread_hash_seed(rng::mix(process_seed, rng::fnv("warmup")));
-        let r = catch_unwind(|| {
+        let r = catch_unwind(|| in_world(|| {
             let mut book = umya_spreadsheet::new_file();
             let ws = book.get_sheet_mut(&0).unwrap();
             ws.get_cell_mut("A1").set_value("warm");
@@ -134,8 +134,7 @@ pub fn warm_up(process_seed: u64) -> Result<(), String> {
             let mut b2 = crate::world::load_mem(&bytes, true).unwrap();
             b2.insert_new_row("Sheet1", &1, &1);
             let _ = crate::world::save_mem(&b2, true).unwrap();
-            crate::shim::thread_hash_calls()
-        });
+        })).map(|_| crate::shim::thread_hash_calls());
         r
     });
     match h.join() {
@@ -204,4 +203,23 @@ pub fn new_case(engine: &str, run_seed: u64) -> Value {
         "run_seed": hex64(run_seed),
         "hash_seed": hex64(hs.next_u64()),
     })
+}
+
+/// Run library code where its lock type works: directly in the plain flavour, inside a one-thread
+/// shuttle execution in the sched flavour.
+#[cfg(not(umya_verif_sched))]
+pub fn in_world(f: impl Fn() + Send + Sync + 'static) {
+    f()
+}
+
+#[cfg(umya_verif_sched)]
+pub fn in_world(f: impl Fn() + Send + Sync + 'static) {
+    let log = std::sync::Arc::new(std::sync::Mutex::new(crate::c16::SchedLog::default()));
+    let sched = crate::c16::SimSched::new("random", 1, 1, 1, vec![], log);
+    let mut cfg = shuttle::Config::new();
+    cfg.stack_size = 16 << 20;
+    cfg.max_steps = shuttle::MaxSteps::None;
+    cfg.failure_persistence = shuttle::FailurePersistence::None;
+    cfg.silence_warnings = true;
+    shuttle::Runner::new(sched, cfg).run(f);
 }
